@@ -27,6 +27,8 @@ func (w *vWatcher) Close() error                              { w.closed++; retu
 
 var (
 	vStoreKV    map[string]string // the etcd key space
+	vStoreRev   map[string]int64  // mod revision of each key
+	vRevision   int64
 	vWatchCh    chan clientv3.WatchResponse
 	vTickCh     chan time.Time
 	vPullFails  bool // the server is down: pulls fail
@@ -47,7 +49,7 @@ func vGetRawPrefix(c *cluster, prefix string) (map[string]*mvccpb.KeyValue, erro
 	out := map[string]*mvccpb.KeyValue{}
 	for k, v := range vStoreKV {
 		if vHasPrefix(k, prefix) {
-			out[k] = &mvccpb.KeyValue{Key: []byte(k), Value: []byte(v)}
+			out[k] = &mvccpb.KeyValue{Key: []byte(k), Value: []byte(v), ModRevision: vStoreRev[k]}
 		}
 	}
 	return out, nil
@@ -58,7 +60,7 @@ func vGetRaw(c *cluster, key string) (*mvccpb.KeyValue, error) {
 		return nil, errors.New("etcd server unavailable")
 	}
 	if v, ok := vStoreKV[key]; ok {
-		return &mvccpb.KeyValue{Key: []byte(key), Value: []byte(v)}, nil
+		return &mvccpb.KeyValue{Key: []byte(key), Value: []byte(v), ModRevision: vStoreRev[key]}, nil
 	}
 	return nil, nil
 }
@@ -92,9 +94,10 @@ func verifC19_SyncPrefix() {
 	const prefix = "/p/"
 	keys := []string{"/p/a", "/p/b", "/q/x"}
 	vals := []string{"v1", "v2"}
-	vStoreKV = map[string]string{}
+	vStoreKV, vStoreRev, vRevision = map[string]string{}, map[string]int64{}, 1
 	if verifBool("initiallyNonEmpty") {
 		vStoreKV["/p/a"] = "v1"
+		vStoreRev["/p/a"] = 1
 	}
 	vWatchCh = make(chan clientv3.WatchResponse, 8)
 	vTickCh = make(chan time.Time, 8)
@@ -115,6 +118,8 @@ func verifC19_SyncPrefix() {
 			delete(vStoreKV, k)
 		} else {
 			vStoreKV[k] = vals[verifChoose("write.value", 2)]
+			vRevision++
+			vStoreRev[k] = vRevision
 		}
 		history[nh] = vSnapshot(prefix)
 		nh++
@@ -193,7 +198,7 @@ func verifC19_SyncPrefix() {
 
 // verifC19_SyncKey: the single-key adapter.
 func verifC19_SyncKey() {
-	vStoreKV = map[string]string{}
+	vStoreKV, vStoreRev, vRevision = map[string]string{}, map[string]int64{}, 1
 	vWatchCh = make(chan clientv3.WatchResponse, 8)
 	vTickCh = make(chan time.Time, 8)
 	vPullFails, vWatchCount = false, 0
